@@ -90,6 +90,10 @@ func isBareIPv6(s string) bool {
 // isUnspecifiedHost returns true if the host is an unspecified IP address
 // such as :: or 0.0.0.0, which other nodes can't dial.
 func isUnspecifiedHost(host string) bool {
+	if i := strings.IndexByte(host, '%'); i >= 0 {
+		// A zone says which link, the address is what is in front of it.
+		host = host[:i]
+	}
 	ip := net.ParseIP(host)
 	return ip != nil && ip.IsUnspecified()
 }
